@@ -796,6 +796,36 @@ theorem slice_nil (mark : T) (np : NP) (fi : Nat) (ns s : Option Nat) (md i : Na
   · simp only [h, if_false, applyOps]
     rw [List.drop_eq_nil_of_le (by omega)]; simp
 
+/-- state after a skipped element (it was put with the verified slice it belongs to) -/
+theorem skip_post (np : NP) (fi i : Nat) (run : Run) (cur bt : List T) (x : T) (rest : List T) (hk : run.skip > 0)
+    (hsi : run.proc = 0 ∧ run.skip ≤ (x :: rest).length ∧ (cur.drop i).take run.skip = eraseL ((x :: rest).take run.skip) ∧
+      cur.drop (i + run.skip) = bt.drop run.skip) :
+    cur.drop i = erase x :: cur.drop (i + 1) ∧ SI np fi (i + 1) { run with skip := run.skip - 1 } cur rest bt.tail 0 := by
+  obtain ⟨hp, hle, htk, htl⟩ := hsi
+  obtain ⟨k, hk'⟩ : ∃ k, run.skip = k + 1 := ⟨run.skip - 1, by omega⟩
+  rw [hk'] at htk hle htl
+  simp only [List.take_succ_cons, eraseL] at htk
+  cases hd : cur.drop i with
+  | nil => rw [hd] at htk; simp at htk
+  | cons a tl =>
+    rw [hd] at htk
+    simp only [List.take_succ_cons, List.cons.injEq] at htk
+    obtain ⟨rfl, htk⟩ := htk
+    have hd1 := drop_succ_of_cons hd
+    refine ⟨by rw [hd1], ?_⟩
+    unfold SI
+    simp only [hk', Nat.add_sub_cancel]
+    by_cases hk0 : k > 0
+    · simp only [hk0, if_true]
+      refine ⟨hp, by simpa using hle, by rw [hd1]; exact htk, ?_⟩
+      rw [List.drop_tail] ; rw [← htl]; congr 1; omega
+    · have : k = 0 := by omega
+      subst this
+      simp only [Nat.lt_irrefl, if_false, Nat.zero_le, runFree, true_and, Nat.add_zero, List.drop_zero, hp]
+      refine ⟨?_, ?_⟩
+      · rw [← List.drop_one, ← htl]
+      · have := lt_of_drop_cons hd; omega
+
 /-- a skipped element (it was put with the verified slice it belongs to) -/
 theorem slice_skip_step (mark : T) (np : NP) (fi : Nat) (ns s : Option Nat) (md i : Nat) (run : Run) (cur done bt : List T)
     (x : T) (rest : List T) (hdone : done.length = i) (hk : run.skip > 0)
@@ -807,40 +837,91 @@ theorem slice_skip_step (mark : T) (np : NP) (fi : Nat) (ns s : Option Nat) (md 
     applyOps (recSliceGo mark np fi ns false (i + 1) { run with skip := run.skip - 1 } cur rest).ops
       (.many s md (done ++ cur.drop i)) = .many s md (done ++ eraseL (x :: rest)) := by
   intro hf
-  obtain ⟨hp, hle, htk, htl⟩ := hsi
-  obtain ⟨k, hk'⟩ : ∃ k, run.skip = k + 1 := ⟨run.skip - 1, by omega⟩
-  rw [hk'] at htk hle htl
-  simp only [List.take_succ_cons, eraseL] at htk
-  -- the head of the remaining output list is the structure of `x`
-  cases hd : cur.drop i with
-  | nil => rw [hd] at htk; simp at htk
-  | cons a tl =>
-    rw [hd] at htk
-    simp only [List.take_succ_cons, List.cons.injEq] at htk
-    obtain ⟨rfl, htk⟩ := htk
-    have hd1 := drop_succ_of_cons hd
-    have hsi' : SI np fi (i + 1) { run with skip := run.skip - 1 } cur rest bt.tail 0 := by
-      unfold SI
-      simp only [hk', Nat.add_sub_cancel]
-      by_cases hk0 : k > 0
-      · simp only [hk0, if_true]
-        refine ⟨hp, by simpa using hle, by rw [hd1]; exact htk, ?_⟩
-        rw [List.drop_tail] ; rw [← htl]; congr 1; omega
-      · have : k = 0 := by omega
-        subst this
-        simp only [Nat.lt_irrefl, if_false, Nat.zero_le, runFree, true_and, Nat.add_zero, List.drop_zero, hp]
-        refine ⟨?_, ?_⟩
-        · rw [← List.drop_one, ← htl]
-        · have := lt_of_drop_cons hd; omega
-    have := IH { run with skip := run.skip - 1 } (done ++ [erase x]) (by simp [hdone]) hsi' hf
-    rw [hd1] at this
-    simpa [eraseL] using this
+  obtain ⟨hd, hsi'⟩ := skip_post np fi i run cur bt x rest hk hsi
+  have := IH { run with skip := run.skip - 1 } (done ++ [erase x]) (by simp [hdone]) hsi' hf
+  rw [hd]
+  simpa [eraseL] using this
 
 theorem runFree_pred (np : NP) (fi i g : Nat) (x : T) (rest : List T) (h : runFree np fi i g (x :: rest) = true) :
     (g > 0 → putsFirst np [fi, i] x = true) ∧ runFree np fi (i + 1) (g - 1) rest = true := by
   cases g with
   | zero => simp [runFree]
   | succ g => simp only [runFree, Bool.and_eq_true] at h; simp [h.1, h.2]
+
+/-- state when an element is handed to `recurse_node`: after the optional insertion past the end the output list holds `ok`
+at `i`; either the element is put again anyway or `ok` is what the slot hypothesis names. -/
+theorem go_post (mark : T) (np : NP) (fi : Nat) (s : Option Nat) (md i : Nat) (run1 : Run) (cur1 done bt : List T)
+    (g1 : Nat) (x : T) (rest : List T) (one : Bool) (hdone : done.length = i)
+    (hslots : elemSlots mark np fi i bt (x :: rest)) (hsk0 : run1.skip = 0) (hpr : run1.proc > 0) (hg1 : g1 ≤ run1.proc)
+    (hfree1 : runFree np fi i g1 (x :: rest) = true) (htl1 : cur1.drop (i + g1) = bt.drop g1)
+    (hmax : max i run1.lenRead = cur1.length) (cur2 : List T) (opsIns : List Op)
+    (hc2 : (if decide (i ≥ run1.lenRead) = true then List.take i cur1 ++ [erase x] ++ List.drop i cur1 else cur1) = cur2)
+    (hoi : (if decide (i ≥ run1.lenRead) = true then [(⟨[], .putSlice i i .ast one [erase x]⟩ : Op)] else []) = opsIns) :
+    ∃ ok tl, cur2.drop i = ok :: tl ∧
+        applyOps opsIns (.many s md (done ++ cur1.drop i)) = .many s md (done ++ ok :: tl) ∧
+        (putsFirst np [fi, i] x = true ∨ slot mark np [fi, i] ok x) ∧
+        SI np fi (i + 1) { proc := run1.proc - 1, skip := run1.skip, lenRead := run1.lenRead } cur2 rest bt.tail (g1 - 1) := by
+  have hsk0' : ¬ run1.skip > 0 := by omega
+  obtain ⟨hpf, hfree2⟩ := runFree_pred np fi i g1 x rest hfree1
+  by_cases hins : i ≥ run1.lenRead
+  · -- insertion past the end of the output list
+    have hl : cur1.length = i := by omega
+    simp only [hins, decide_true, if_true] at hc2 hoi
+    have hd0 : cur1.drop i = [] := List.drop_eq_nil_of_le (by omega)
+    rw [List.take_of_length_le (by omega), hd0, List.append_nil] at hc2
+    subst hc2 hoi
+    refine ⟨erase x, [], by rw [List.drop_left' hl], ?_, ?_, ?_⟩
+    · rw [hd0]; subst hdone
+      simp [applyOps, applyOp, applyAt, applyAct]
+    · left
+      by_cases hg0 : g1 > 0
+      · exact hpf hg0
+      · have : g1 = 0 := by omega
+        subst this
+        simp only [Nat.add_zero, List.drop_zero] at htl1
+        rw [hd0] at htl1; rw [← htl1] at hslots
+        exact hslots.1
+    · unfold SI
+      simp only [hsk0', if_false]
+      refine ⟨by omega, hfree2, ?_, ?_⟩
+      · have h1 : (cur1 ++ [erase x]).drop (i + 1 + (g1 - 1)) = [] := List.drop_eq_nil_of_le (by simp; omega)
+        rw [h1, List.drop_tail]
+        have h2 : cur1.drop (i + g1) = [] := List.drop_eq_nil_of_le (by omega)
+        by_cases hg0 : g1 > 0
+        · rw [show g1 - 1 + 1 = g1 by omega, ← htl1, h2]
+        · have : g1 = 0 := by omega
+          subst this
+          simp only [Nat.add_zero, List.drop_zero] at htl1
+          rw [← htl1, hd0]; rfl
+      · split
+        · first | omega | (simp; omega)
+        · first | omega | (simp; omega)
+  · -- the element is processed over what the output list holds at `i`
+    have hl : i < cur1.length := by omega
+    simp only [hins, decide_false, Bool.false_eq_true, if_false] at hc2 hoi
+    subst hc2 hoi
+    refine ⟨cur1[i], cur1.drop (i + 1), drop_cons_of_lt cur1 i hl, ?_, ?_, ?_⟩
+    · rw [drop_cons_of_lt cur1 i hl]; rfl
+    · by_cases hg0 : g1 > 0
+      · exact Or.inl (hpf hg0)
+      · have : g1 = 0 := by omega
+        subst this
+        simp only [Nat.add_zero, List.drop_zero] at htl1
+        rw [drop_cons_of_lt cur1 i hl] at htl1; rw [← htl1] at hslots
+        exact Or.inr hslots.1
+    · unfold SI
+      simp only [hsk0', if_false]
+      refine ⟨by omega, hfree2, ?_, ?_⟩
+      · rw [List.drop_tail]
+        by_cases hg0 : g1 > 0
+        · rw [show g1 - 1 + 1 = g1 by omega, show i + 1 + (g1 - 1) = i + g1 by omega, htl1]
+        · have : g1 = 0 := by omega
+          subst this
+          simp only [Nat.add_zero, List.drop_zero] at htl1
+          rw [← htl1]; simp
+      · split
+        · first | omega | (simp; omega)
+        · first | omega | (simp; omega)
 
 /-- one element of the list processed by `recurse_node` (after the optional slice put of its run and the optional insertion
 past the end) -/
@@ -878,71 +959,8 @@ theorem slice_go_step (mark : T) (np : NP) (fi : Nat) (ns s : Option Nat) (md i 
       = cur2 at hf ⊢
     generalize hoi : (if decide (i ≥ run1.lenRead) = true then [(⟨[], .putSlice i i .ast true [erase x]⟩ : Op)] else [])
       = opsIns at hf ⊢
-    obtain ⟨hpf, hfree2⟩ := runFree_pred np fi i g1 x rest hfree1
-    have hA : ∃ ok tl, cur2.drop i = ok :: tl ∧
-        applyOps opsIns (.many s md (done ++ cur1.drop i)) = .many s md (done ++ ok :: tl) ∧
-        (putsFirst np [fi, i] x = true ∨ slot mark np [fi, i] ok x) ∧
-        SI np fi (i + 1) { proc := run1.proc - 1, skip := run1.skip, lenRead := run1.lenRead } cur2 rest bt.tail (g1 - 1) := by
-      by_cases hins : i ≥ run1.lenRead
-      · -- insertion past the end of the output list
-        have hl : cur1.length = i := by omega
-        simp only [hins, decide_true, if_true] at hc2 hoi
-        have hd0 : cur1.drop i = [] := List.drop_eq_nil_of_le (by omega)
-        rw [List.take_of_length_le (by omega), hd0, List.append_nil] at hc2
-        subst hc2 hoi
-        refine ⟨erase x, [], by rw [List.drop_left' hl], ?_, ?_, ?_⟩
-        · rw [hd0]; subst hdone
-          simp [applyOps, applyOp, applyAt, applyAct]
-        · left
-          by_cases hg0 : g1 > 0
-          · exact hpf hg0
-          · have : g1 = 0 := by omega
-            subst this
-            simp only [Nat.add_zero, List.drop_zero] at htl1
-            rw [hd0] at htl1; rw [← htl1] at hslots
-            exact hslots.1
-        · unfold SI
-          simp only [hsk0', if_false]
-          refine ⟨by omega, hfree2, ?_, ?_⟩
-          · have h1 : (cur1 ++ [erase x]).drop (i + 1 + (g1 - 1)) = [] := List.drop_eq_nil_of_le (by simp; omega)
-            rw [h1, List.drop_tail]
-            have h2 : cur1.drop (i + g1) = [] := List.drop_eq_nil_of_le (by omega)
-            by_cases hg0 : g1 > 0
-            · rw [show g1 - 1 + 1 = g1 by omega, ← htl1, h2]
-            · have : g1 = 0 := by omega
-              subst this
-              simp only [Nat.add_zero, List.drop_zero] at htl1
-              rw [← htl1, hd0]; rfl
-          · split
-            · first | omega | (simp; omega)
-            · first | omega | (simp; omega)
-      · -- the element is processed over what the output list holds at `i`
-        have hl : i < cur1.length := by omega
-        simp only [hins, decide_false, Bool.false_eq_true, if_false] at hc2 hoi
-        subst hc2 hoi
-        refine ⟨cur1[i], cur1.drop (i + 1), drop_cons_of_lt cur1 i hl, ?_, ?_, ?_⟩
-        · rw [drop_cons_of_lt cur1 i hl]; rfl
-        · by_cases hg0 : g1 > 0
-          · exact Or.inl (hpf hg0)
-          · have : g1 = 0 := by omega
-            subst this
-            simp only [Nat.add_zero, List.drop_zero] at htl1
-            rw [drop_cons_of_lt cur1 i hl] at htl1; rw [← htl1] at hslots
-            exact Or.inr hslots.1
-        · unfold SI
-          simp only [hsk0', if_false]
-          refine ⟨by omega, hfree2, ?_, ?_⟩
-          · rw [List.drop_tail]
-            by_cases hg0 : g1 > 0
-            · rw [show g1 - 1 + 1 = g1 by omega, show i + 1 + (g1 - 1) = i + g1 by omega, htl1]
-            · have : g1 = 0 := by omega
-              subst this
-              simp only [Nat.add_zero, List.drop_zero] at htl1
-              rw [← htl1]; simp
-          · split
-            · first | omega | (simp; omega)
-            · first | omega | (simp; omega)
-    obtain ⟨ok, tl, hdrop, happ, hslot, hsi2⟩ := hA
+    obtain ⟨ok, tl, hdrop, happ, hslot, hsi2⟩ := go_post mark np fi s md i run1 cur1 done bt g1 x rest true hdone hslots
+      hsk0 hpr hg1 hfree1 htl1 hmax cur2 opsIns hc2 hoi
     have hok : cur2[i]?.getD .nil = ok := by rw [getElem?_of_drop_cons hdrop]; rfl
     rw [hok] at hf ⊢
     by_cases hrf : (recNode mark np [fi, i] ok x).fail = true
@@ -957,6 +975,7 @@ theorem slice_go_step (mark : T) (np : NP) (fi : Nat) (ns s : Option Nat) (md i 
       rw [applyOps_append, applyOps_append, applyOps_append, hops, happ, applyOps_preAll, hmk, hx]
       rw [drop_succ_of_cons hdrop] at hr
       simpa [eraseL] using hr
+
 
 theorem ast_hs (mark : T) (np : NP) (rel : Path) (outa n : T)
     (hs : putsFirst np rel n = true ∨ slot mark np rel outa n) (hp : putsFirst np rel n = (np != .ast)) :
